@@ -797,6 +797,8 @@ func ErrClass(r Result) string {
 		{"aggregate commit", "aggcommit"},
 		{"invalid certificate received", "aggcommit"},
 		{"invalid signature", "signature"},
+		{"generator keys does not exist", "genlookup"},
+		{"invalid state.", "bft"},
 		{"invalid validatorsHash", "vhash"},
 		{"invalid precommit threshold", "setparams"},
 		{"invalid validators size", "setparams"},
